@@ -596,6 +596,13 @@ example : parseDoc pil_env pil_grammar "structure x = a : . \n" =
 
 /-! ### non-vacuity: a four-statement document of four different kinds -/
 
+/-- from the character list to the string literal: the text of the theorem instance and the literal are compared
+    as character lists (with a bare `exact h` the kernel could also identify the two statements by evaluating the
+    parser on both texts) -/
+theorem parse_of_text (env : Env) (g : G) (T : List Char) (s : String) (r : Option (List Tree))
+    (h : parseDoc env g (String.ofList T) = r) (e : T = s.toList) : parseDoc env g s = r := by
+  subst e; rwa [String.ofList_toList] at h
+
 theorem ident_single (c : Char) (h : c ∈ pp_alphanums ++ ['_', '-']) : Ident [c] :=
   ⟨by simp, by intro x hx; simp at hx; subst hx; exact h⟩
 
@@ -640,7 +647,7 @@ example :
             · exact ⟨['a'], false, rfl, ia⟩
             · exact ⟨['t'], true, rfl, it⟩⟩ 0 1 1 0
       · exact stmtText_kernel ['X'] ["a", "t", "a"] ['(', '.', ')'] _ iX hleg (by decide) rfl)
-  exact h
+  exact parse_of_text _ _ _ _ _ h (by decide +kernel)
 
 /-- the same document, checked directly against the interpreter -/
 example :
